@@ -5,7 +5,7 @@ use emulator_2a_lib::machine::Bus;
 
 #[derive(Clone)]
 pub struct Ref {
-    pub r: [u8; 4],   // R0..R3 (R3 = PC)
+    pub r: [u8; 4], // R0..R3 (R3 = PC)
     pub fr: u8,
     pub sp: u8,
     pub ram: [u8; 0xF0],
@@ -14,7 +14,11 @@ pub struct Ref {
     pub io: Bus,      // delegate for F0..FB
     pub ram_accesses: u32,
     pub steps: u32,
+    /// every value written to PC / SP during the last `step` (for the supervision oracle, C05)
+    pub pc_trace: Vec<u8>,
+    pub sp_trace: Vec<u8>,
 }
+
 #[derive(Debug, PartialEq, Clone, Copy)]
 pub enum Outcome {
     /// instruction completed
@@ -29,123 +33,376 @@ pub enum Outcome {
     Undefined,
 }
 
-const C: u8 = 1; const Z: u8 = 2; const N: u8 = 4;
+const C: u8 = 1;
+const Z: u8 = 2;
+const N: u8 = 4;
 
 impl Ref {
+    fn set(&mut self, i: usize, v: u8) {
+        self.r[i] = v;
+        if i == 3 {
+            self.pc_trace.push(v);
+        }
+    }
+    fn set_sp(&mut self, v: u8) {
+        self.sp = v;
+        self.sp_trace.push(v);
+    }
+    fn inc(&mut self, i: usize) {
+        let v = self.r[i].wrapping_add(1);
+        self.set(i, v);
+    }
     fn rd(&mut self, a: u8) -> u8 {
-        if a <= 0xEF { self.ram_accesses += 1; self.ram[a as usize] }
-        else if a >= 0xFC { self.inp[(a - 0xFC) as usize] }
-        else { self.io.read(a) }
+        if a <= 0xEF {
+            self.ram_accesses += 1;
+            self.ram[a as usize]
+        } else if a >= 0xFC {
+            self.inp[(a - 0xFC) as usize]
+        } else {
+            self.io.read(a)
+        }
     }
     fn wr(&mut self, a: u8, v: u8) {
-        if a <= 0xEF { self.ram_accesses += 1; self.ram[a as usize] = v }
-        else if a == 0xFE { self.out[0] = v } else if a == 0xFF { self.out[1] = v }
-        else { self.io.write(a, v) } // incl. FC/FD timer
+        if a <= 0xEF {
+            self.ram_accesses += 1;
+            self.ram[a as usize] = v
+        } else if a == 0xFE {
+            self.out[0] = v
+        } else if a == 0xFF {
+            self.out[1] = v
+        } else {
+            self.io.write(a, v) // incl. FC/FD timer
+        }
     }
     fn flags(&mut self, c: bool, v: u8) {
         self.fr = (self.fr & !(C | Z | N)) | (c as u8) | (((v == 0) as u8) << 1) | (((v & 0x80 != 0) as u8) << 2);
     }
-    fn cf(&self) -> bool { self.fr & C != 0 }
-    fn fetch(&mut self) -> u8 { let pc = self.r[3]; let b = self.rd(pc); self.r[3] = pc.wrapping_add(1); b }
-    fn push(&mut self, v: u8) { self.sp = self.sp.wrapping_sub(1); let sp = self.sp; self.wr(sp, v); }
-    fn pop(&mut self) -> u8 { let sp = self.sp; let v = self.rd(sp); self.sp = sp.wrapping_add(1); v }
+    fn cf(&self) -> bool {
+        self.fr & C != 0
+    }
+    fn fetch(&mut self) -> u8 {
+        let pc = self.r[3];
+        let b = self.rd(pc);
+        self.set(3, pc.wrapping_add(1));
+        b
+    }
+    fn push(&mut self, v: u8) {
+        let sp = self.sp.wrapping_sub(1);
+        self.set_sp(sp);
+        self.wr(sp, v);
+    }
+    fn pop(&mut self) -> u8 {
+        let sp = self.sp;
+        let v = self.rd(sp);
+        self.set_sp(sp.wrapping_add(1));
+        v
+    }
     /// operand fetch through addressing mode; returns (value, effective address if memory)
     fn operand(&mut self, mode: u8, reg: usize) -> (u8, Option<u8>) {
         match mode {
             0 => (self.r[reg], None),
-            1 => { let a = self.r[reg]; (self.rd(a), Some(a)) }
-            2 => { let a = self.r[reg]; let v = self.rd(a); self.r[reg] = self.r[reg].wrapping_add(1); (v, Some(a)) }
-            _ => { let a = self.r[reg]; let p = self.rd(a); let v = self.rd(p); self.r[reg] = self.r[reg].wrapping_add(1); (v, Some(p)) }
+            1 => {
+                let a = self.r[reg];
+                (self.rd(a), Some(a))
+            }
+            2 => {
+                let a = self.r[reg];
+                let v = self.rd(a);
+                self.inc(reg);
+                (v, Some(a))
+            }
+            _ => {
+                let a = self.r[reg];
+                let p = self.rd(a);
+                let v = self.rd(p);
+                self.inc(reg);
+                (v, Some(p))
+            }
         }
     }
-    pub fn peek(&mut self, a: u8) -> u8 { self.rd(a) }
-    pub fn operand_pub(&mut self, m: u8, r: usize) -> (u8, Option<u8>) { self.operand(m, r) }
+    pub fn peek(&mut self, a: u8) -> u8 {
+        self.rd(a)
+    }
+    pub fn operand_pub(&mut self, m: u8, r: usize) -> (u8, Option<u8>) {
+        self.operand(m, r)
+    }
     pub fn interrupt_entry(&mut self) {
-        let fr = self.fr; self.push(fr); let pc = self.r[3]; self.push(pc); self.fr &= 0x07; self.r[3] = 2;
+        let fr = self.fr;
+        self.push(fr);
+        let pc = self.r[3];
+        self.push(pc);
+        self.fr &= 0x07;
+        self.set(3, 2);
     }
     pub fn step(&mut self) -> Outcome {
+        self.pc_trace.clear();
+        self.sp_trace.clear();
         let op = self.fetch();
-        let d = (op & 3) as usize; let s = ((op >> 2) & 3) as usize;
+        let d = (op & 3) as usize;
+        let s = ((op >> 2) & 3) as usize;
         match op >> 4 {
             0x0 => match op {
                 0x00 => return Outcome::ErrorOp0,
                 0x01 => return Outcome::Stopped,
                 0x02 | 0x03 => {}
-                0x04..=0x07 => self.r[d] = 0,
+                0x04..=0x07 => self.set(d, 0),
                 0x08..=0x0B => self.fr |= 0xF8,
                 _ => self.fr &= 0x07,
             },
             0x1 => match s {
-                0 => { let v = self.r[d]; self.push(v) }
-                1 => { let v = self.pop(); self.r[d] = v; }
-                2 => { let v = self.fr; self.push(v) }
-                _ => { let v = self.pop(); self.fr = v; }
+                0 => {
+                    let v = self.r[d];
+                    self.push(v)
+                }
+                1 => {
+                    let v = self.pop();
+                    self.set(d, v);
+                }
+                2 => {
+                    let v = self.fr;
+                    self.push(v)
+                }
+                _ => {
+                    let v = self.pop();
+                    self.fr = v;
+                }
             },
             0x2 => match s {
-                0 | 1 => { // JR cond
+                0 | 1 => {
+                    // JR cond
                     let cond = op & 7;
-                    let base = match cond & 3 { 0 => true, 1 => self.fr & C != 0, 2 => self.fr & Z != 0, _ => self.fr & N != 0 };
+                    let base = match cond & 3 {
+                        0 => true,
+                        1 => self.fr & C != 0,
+                        2 => self.fr & Z != 0,
+                        _ => self.fr & N != 0,
+                    };
                     let take = base ^ (cond & 4 != 0);
-                    if take { let off = self.fetch(); self.r[3] = self.r[3].wrapping_add(off); } else { self.r[3] = self.r[3].wrapping_add(1); }
+                    if take {
+                        let off = self.fetch();
+                        let t = self.r[3].wrapping_add(off);
+                        self.set(3, t);
+                    } else {
+                        self.inc(3);
+                    }
                 }
-                2 => { self.sp = self.sp.wrapping_sub(1); let ap = self.r[3]; self.r[3] = ap.wrapping_add(1); let (sp, ret) = (self.sp, self.r[3]); self.wr(sp, ret); self.r[3] = self.rd(ap); }
-                _ => { self.r[3] = self.pop(); self.fr = self.pop(); }
+                2 => {
+                    // CALL
+                    let sp = self.sp.wrapping_sub(1);
+                    self.set_sp(sp);
+                    let ap = self.r[3];
+                    self.set(3, ap.wrapping_add(1));
+                    let ret = self.r[3];
+                    self.wr(sp, ret);
+                    let t = self.rd(ap);
+                    self.set(3, t);
+                }
+                _ => {
+                    // RETI
+                    let pc = self.pop();
+                    self.set(3, pc);
+                    self.fr = self.pop();
+                }
             },
-            0x3 => { let v = self.r[d]; match s {
-                0 => { let r = !v; self.r[d] = r; self.flags(false, r) }
-                1 => { let r = (!v).wrapping_add(1); self.r[d] = r; self.flags(v == 0, r) }
-                2 => { let r = v >> 1; self.r[d] = r; self.flags(v & 1 != 0, r) }
-                _ => { let r = (v >> 1) | (v & 0x80); self.r[d] = r; self.flags(v & 1 != 0, r) }
-            }}
-            0x4 => { let v = self.r[d]; match s {
-                0 => { let r = (v >> 1) | ((self.cf() as u8) << 7); self.r[d] = r; self.flags(v & 1 != 0, r) }
-                1 => { let r = v.wrapping_add(1); self.r[d] = r; self.flags(v == 0xFF, r) }
-                2 => { self.flags(false, v) }
-                _ => return Outcome::Hang,
-            }}
-            0x5 => { // DEC with addressing mode s
+            0x3 => {
+                let v = self.r[d];
                 match s {
-                    0 => { let v = self.r[d]; let r = v.wrapping_sub(1); self.r[d] = r; self.flags(v == 0, r) }
-                    1 => { let a = self.r[d]; let v = self.rd(a); let r = v.wrapping_sub(1); self.flags(v == 0, r); self.wr(a, r) }
-                    2 => { let a = self.r[d]; let v = self.rd(a); let r = v.wrapping_sub(1); self.flags(v == 0, r); self.wr(a, r); self.r[d] = self.r[d].wrapping_add(1) }
-                    _ => { let a = self.r[d]; let p = self.rd(a); let v = self.rd(p); let r = v.wrapping_sub(1); self.flags(v == 0, r); self.wr(p, r); self.r[d] = self.r[d].wrapping_add(1) }
+                    0 => {
+                        let r = !v;
+                        self.set(d, r);
+                        self.flags(false, r)
+                    }
+                    1 => {
+                        let r = (!v).wrapping_add(1);
+                        self.set(d, r);
+                        self.flags(v == 0, r)
+                    }
+                    2 => {
+                        let r = v >> 1;
+                        self.set(d, r);
+                        self.flags(v & 1 != 0, r)
+                    }
+                    _ => {
+                        let r = (v >> 1) | (v & 0x80);
+                        self.set(d, r);
+                        self.flags(v & 1 != 0, r)
+                    }
                 }
             }
-            0x6 => { let (a, b) = (self.r[d] as u16, self.r[s] as u16); let t = a + b; self.r[d] = t as u8; self.flags(t > 255, t as u8) }
-            0x7 => { let (a, b) = (self.r[d] as u16, self.r[s] as u16); let t = a + b + self.cf() as u16; self.r[d] = t as u8; self.flags(t > 255, t as u8) }
-            0x8 => { let (a, b) = (self.r[d], self.r[s]); let r = a.wrapping_sub(b); self.r[d] = r; self.flags(a < b, r) }
-            0x9 => { let r = self.r[d] & self.r[s]; self.r[d] = r; self.flags(false, r) }
-            0xA => { let r = self.r[d] | self.r[s]; self.r[d] = r; self.flags(false, r) }
-            0xB => { let p = self.r[d] as u16 * self.r[s] as u16; self.r[d] = p as u8; self.flags(p > 255, p as u8) }
-            0xC => { let (a, b) = (self.r[d], self.r[s]);
-                if b == 0 { self.r[d] = 0xFF; self.flags(true, 0xFF) } else { let q = a / b; self.r[d] = q; self.flags(false, q) } }
-            0xD => { let r = self.r[d] ^ self.r[s]; self.r[d] = r; self.flags(false, r) }
+            0x4 => {
+                let v = self.r[d];
+                match s {
+                    0 => {
+                        let r = (v >> 1) | ((self.cf() as u8) << 7);
+                        self.set(d, r);
+                        self.flags(v & 1 != 0, r)
+                    }
+                    1 => {
+                        let r = v.wrapping_add(1);
+                        self.set(d, r);
+                        self.flags(v == 0xFF, r)
+                    }
+                    2 => self.flags(false, v),
+                    _ => return Outcome::Hang,
+                }
+            }
+            0x5 => {
+                // DEC with addressing mode s
+                match s {
+                    0 => {
+                        let v = self.r[d];
+                        let r = v.wrapping_sub(1);
+                        self.set(d, r);
+                        self.flags(v == 0, r)
+                    }
+                    1 => {
+                        let a = self.r[d];
+                        let v = self.rd(a);
+                        let r = v.wrapping_sub(1);
+                        self.flags(v == 0, r);
+                        self.wr(a, r)
+                    }
+                    2 => {
+                        let a = self.r[d];
+                        let v = self.rd(a);
+                        let r = v.wrapping_sub(1);
+                        self.flags(v == 0, r);
+                        self.wr(a, r);
+                        self.inc(d)
+                    }
+                    _ => {
+                        let a = self.r[d];
+                        let p = self.rd(a);
+                        let v = self.rd(p);
+                        let r = v.wrapping_sub(1);
+                        self.flags(v == 0, r);
+                        self.wr(p, r);
+                        self.inc(d)
+                    }
+                }
+            }
+            0x6 => {
+                let t = self.r[d] as u16 + self.r[s] as u16;
+                self.set(d, t as u8);
+                self.flags(t > 255, t as u8)
+            }
+            0x7 => {
+                let t = self.r[d] as u16 + self.r[s] as u16 + self.cf() as u16;
+                self.set(d, t as u8);
+                self.flags(t > 255, t as u8)
+            }
+            0x8 => {
+                let (a, b) = (self.r[d], self.r[s]);
+                let r = a.wrapping_sub(b);
+                self.set(d, r);
+                self.flags(a < b, r)
+            }
+            0x9 => {
+                let r = self.r[d] & self.r[s];
+                self.set(d, r);
+                self.flags(false, r)
+            }
+            0xA => {
+                let r = self.r[d] | self.r[s];
+                self.set(d, r);
+                self.flags(false, r)
+            }
+            0xB => {
+                let p = self.r[d] as u16 * self.r[s] as u16;
+                self.set(d, p as u8);
+                self.flags(p > 255, p as u8)
+            }
+            0xC => {
+                let (a, b) = (self.r[d], self.r[s]);
+                if b == 0 {
+                    self.set(d, 0xFF);
+                    self.flags(true, 0xFF)
+                } else {
+                    let q = a / b;
+                    self.set(d, q);
+                    self.flags(false, q)
+                }
+            }
+            0xD => {
+                let r = self.r[d] ^ self.r[s];
+                self.set(d, r);
+                self.flags(false, r)
+            }
             0xE => return Outcome::Hang,
-            _ => { // two byte: source mode s, reg d
+            _ => {
+                // two byte: source mode s, reg d
                 let (src, _) = self.operand(s as u8, d);
                 let op2 = self.fetch();
-                let d2 = (op2 & 3) as usize; let m2 = (op2 >> 2) & 3;
+                let d2 = (op2 & 3) as usize;
+                let m2 = (op2 >> 2) & 3;
                 match op2 >> 4 {
-                    0x0 => return Outcome::Undefined,
                     0x1 => match m2 {
-                        0 => self.r[d2] = src,
-                        1 => { let a = self.r[d2]; self.wr(a, src) }
-                        2 => { let a = self.r[d2]; self.wr(a, src); self.r[d2] = self.r[d2].wrapping_add(1) }
-                        _ => { let a = self.r[d2]; let p = self.rd(a); self.wr(p, src); self.r[d2] = self.r[d2].wrapping_add(1) }
+                        0 => self.set(d2, src),
+                        1 => {
+                            let a = self.r[d2];
+                            self.wr(a, src)
+                        }
+                        2 => {
+                            let a = self.r[d2];
+                            self.wr(a, src);
+                            self.inc(d2)
+                        }
+                        _ => {
+                            let a = self.r[d2];
+                            let p = self.rd(a);
+                            self.wr(p, src);
+                            self.inc(d2)
+                        }
                     },
-                    0x2 => { let (dv, _) = self.operand(m2, d2); let r = dv.wrapping_sub(src); self.flags(dv < src, r) }
-                    0x3 => { let (dv, _) = self.operand(m2, d2); let r = dv & src; self.flags(false, r) }
-                    0x4 => match m2 { 0 => { self.sp = src; self.flags(false, src) } 1 => { self.fr = src } _ => return Outcome::Undefined },
+                    0x2 => {
+                        let (dv, _) = self.operand(m2, d2);
+                        let r = dv.wrapping_sub(src);
+                        self.flags(dv < src, r)
+                    }
+                    0x3 => {
+                        let (dv, _) = self.operand(m2, d2);
+                        let r = dv & src;
+                        self.flags(false, r)
+                    }
+                    0x4 => match m2 {
+                        0 => {
+                            self.set_sp(src);
+                            self.flags(false, src)
+                        }
+                        1 => self.fr = src,
+                        _ => return Outcome::Undefined,
+                    },
                     0x5 | 0x6 => {
                         let f = |dv: u8| if op2 >> 4 == 5 { dv | src } else { dv & !src };
                         match m2 {
-                            0 => { let r = f(self.r[d2]); self.r[d2] = r; self.flags(false, r) }
-                            1 => { let a = self.r[d2]; let r = f(self.rd(a)); self.flags(false, r); self.wr(a, r) }
-                            2 => { let a = self.r[d2]; let r = f(self.rd(a)); self.flags(false, r); self.wr(a, r); self.r[d2] = self.r[d2].wrapping_add(1) }
-                            _ => { let a = self.r[d2]; let p = self.rd(a); let r = f(self.rd(p));
-                                   // BITC re-reads the pointer after computing (microcode 0DD); BITS keeps it in R7
-                                   let p2 = if op2 >> 4 == 6 { self.rd(a) } else { p };
-                                   self.flags(false, r); self.wr(p2, r); self.r[d2] = self.r[d2].wrapping_add(1) }
+                            0 => {
+                                let r = f(self.r[d2]);
+                                self.set(d2, r);
+                                self.flags(false, r)
+                            }
+                            1 => {
+                                let a = self.r[d2];
+                                let r = f(self.rd(a));
+                                self.flags(false, r);
+                                self.wr(a, r)
+                            }
+                            2 => {
+                                let a = self.r[d2];
+                                let r = f(self.rd(a));
+                                self.flags(false, r);
+                                self.wr(a, r);
+                                self.inc(d2)
+                            }
+                            _ => {
+                                let a = self.r[d2];
+                                let p = self.rd(a);
+                                let r = f(self.rd(p));
+                                // BITC re-reads the pointer after computing; BITS keeps it in a scratch register
+                                let p2 = if op2 >> 4 == 6 { self.rd(a) } else { p };
+                                self.flags(false, r);
+                                self.wr(p2, r);
+                                self.inc(d2)
+                            }
                         }
                     }
                     _ => return Outcome::Undefined,
@@ -161,20 +418,57 @@ impl Ref {
 pub fn steps(op: u8, op2: u8, rd: u8, rs: u8) -> u32 {
     let s = (op >> 2) & 3;
     match op >> 4 {
-        0x0 => match op { 0x02..=0x07 => 2, 0x08..=0x0F => 3, _ => 0 },
-        0x1 => match s { 3 => 3, _ => 4 },
-        0x2 => match s { 0 | 1 => 3, 2 => 6, _ => 5 },
-        0x3 => if s == 1 { 3 } else { 2 },
+        0x0 => match op {
+            0x02..=0x07 => 2,
+            0x08..=0x0F => 3,
+            _ => 0,
+        },
+        0x1 => match s {
+            3 => 3,
+            _ => 4,
+        },
+        0x2 => match s {
+            0 | 1 => 3,
+            2 => 6,
+            _ => 5,
+        },
+        0x3 => {
+            if s == 1 {
+                3
+            } else {
+                2
+            }
+        }
         0x4 => 2,
         0x5 => [2, 4, 5, 6][s as usize],
         0x6 | 0x7 => 2,
-        0x8 => 4, 0x9 => 7, 0xA => 5, 0xD => 8,
-        0xB => { let iters = if rd == 0 { 1 } else { 8 - rd.leading_zeros() }; 3 * iters + rd.count_ones() + 3 }
-        0xC => if rs == 0 { 5 } else { 2 * (rd / rs) as u32 + 6 },
+        0x8 => 4,
+        0x9 => 7,
+        0xA => 5,
+        0xD => 8,
+        0xB => {
+            let iters = if rd == 0 { 1 } else { 8 - rd.leading_zeros() };
+            3 * iters + rd.count_ones() + 3
+        }
+        0xC => {
+            if rs == 0 {
+                5
+            } else {
+                2 * (rd / rs) as u32 + 6
+            }
+        }
         0xF => {
             let src = [2, 2, 3, 4][s as usize];
             let m = ((op2 >> 2) & 3) as usize;
-            let dst = match op2 >> 4 { 1 => [2, 2, 3, 4][m], 2 => [4, 4, 5, 6][m], 3 => [5, 5, 6, 7][m], 4 => 2, 5 => [4, 4, 5, 6][m], 6 => [5, 5, 6, 8][m], _ => 0 };
+            let dst = match op2 >> 4 {
+                1 => [2, 2, 3, 4][m],
+                2 => [4, 4, 5, 6][m],
+                3 => [5, 5, 6, 7][m],
+                4 => 2,
+                5 => [4, 4, 5, 6][m],
+                6 => [5, 5, 6, 8][m],
+                _ => 0,
+            };
             src + dst
         }
         _ => 0,
